@@ -74,6 +74,9 @@ func c06Squash(s string) string { return strings.Join(strings.Fields(s), "") }
 
 func c06CoqStr(s string) string { return `"` + strings.ReplaceAll(s, `"`, `""`) + `"%string` }
 
+// canonical form of negated tests in compiler 1 (switched on together with the agreement proofs that expect it)
+var c06SwapNegated = true
+
 func c06Unparen(e ast.Expr) ast.Expr {
 	for {
 		p, ok := e.(*ast.ParenExpr)
@@ -705,7 +708,7 @@ func (f *c06Fn) stmts(l []ast.Stmt, ind string, k func(ind string) (string, erro
 			return "", err
 		}
 		// `if !c { A } else { B }` is `if c { B } else { A }` (also `if a != b { continue }` before the rest of a loop body)
-		if inner, ok := c06StripNegb(c); ok {
+		if inner, ok := c06StripNegb(c); ok && c06SwapNegated {
 			c, th, el = inner, el, th
 		}
 		return "if " + c + " then\n" + ind + "  " + th + "\n" + ind + "else\n" + ind + "  " + el, nil
@@ -1738,28 +1741,46 @@ func (c *c06ErrFn) stmts(l []ast.Stmt, ind string) (string, error) {
 		}
 		return "(" + strings.Join(vs, ", ") + ")", nil
 	case *ast.IfStmt:
-		if x.Else != nil {
-			break
+		// `if c { A } else { B }; rest` is `if c { A; rest } else { B; rest }` (a branch that returns never reaches rest);
+		// `if !c { A }; rest` is `if c { rest } else { A }` with the same reading
+		thenL := append(append([]ast.Stmt{}, x.Body.List...), l[1:]...)
+		elseL := l[1:]
+		switch e := x.Else.(type) {
+		case nil:
+		case *ast.BlockStmt:
+			elseL = append(append([]ast.Stmt{}, e.List...), l[1:]...)
+		case *ast.IfStmt:
+			elseL = append([]ast.Stmt{e}, l[1:]...)
+		default:
+			return "", c06Err(c.where, "else branch")
+		}
+		cond := c06Unparen(x.Cond)
+		if x.Init == nil {
+			if u, ok := cond.(*ast.UnaryExpr); ok && u.Op == token.NOT {
+				cond, thenL, elseL = c06Unparen(u.X), elseL, thenL
+			} else if src(cond) == c.param+"!=nil" {
+				cond, thenL, elseL = &ast.BinaryExpr{X: ast.NewIdent(c.param), Op: token.EQL, Y: ast.NewIdent("nil")}, elseL, thenL
+			}
 		}
 		// if err == nil { … }
-		if x.Init == nil && src(x.Cond) == c.param+"==nil" {
-			th, err := c.stmts(x.Body.List, ind+"    ")
+		if x.Init == nil && src(cond) == c.param+"==nil" {
+			th, err := c.stmts(thenL, ind+"    ")
 			if err != nil {
 				return "", err
 			}
-			el, err := c.stmts(l[1:], ind)
+			el, err := c.stmts(elseL, ind)
 			return "if go_err_nil " + c.param + " then " + th + "\n" + ind + "else " + el, err
 		}
 		// if errors.As(err, &x) { … }
-		if call, ok := x.Cond.(*ast.CallExpr); ok && x.Init == nil && src(call.Fun) == "errors.As" && len(call.Args) == 2 && src(call.Args[0]) == c.param {
+		if call, ok := cond.(*ast.CallExpr); ok && x.Init == nil && src(call.Fun) == "errors.As" && len(call.Args) == 2 && src(call.Args[0]) == c.param {
 			if u, ok := call.Args[1].(*ast.UnaryExpr); ok && u.Op == token.AND {
 				if id, ok := u.X.(*ast.Ident); ok {
 					if ty, ok := c.targets[id.Name]; ok {
-						th, err := c.stmts(x.Body.List, ind+"    ")
+						th, err := c.stmts(thenL, ind+"    ")
 						if err != nil {
 							return "", err
 						}
-						el, err := c.stmts(l[1:], ind+"    ")
+						el, err := c.stmts(elseL, ind+"    ")
 						return "match errors_as_" + ty + " " + c.param + " with\n" + ind + "| Some " + c06Name(id.Name) + " => " + th + "\n" +
 							ind + "| None => " + el + "\n" + ind + "end", err
 					}
@@ -1774,7 +1795,7 @@ func (c *c06ErrFn) stmts(l []ast.Stmt, ind string) (string, error) {
 						v := src(as.Lhs[0])
 						saved := c.targets[v]
 						c.targets[v] = ty.Name
-						th, err := c.stmts(x.Body.List, ind+"    ")
+						th, err := c.stmts(thenL, ind+"    ")
 						if saved == "" {
 							delete(c.targets, v)
 						} else {
@@ -1783,7 +1804,7 @@ func (c *c06ErrFn) stmts(l []ast.Stmt, ind string) (string, error) {
 						if err != nil {
 							return "", err
 						}
-						el, err := c.stmts(l[1:], ind+"    ")
+						el, err := c.stmts(elseL, ind+"    ")
 						return "match type_assert_" + ty.Name + " " + c.param + " with\n" + ind + "| Some " + c06Name(v) + " => " + th + "\n" +
 							ind + "| None => " + el + "\n" + ind + "end", err
 					}
